@@ -26,7 +26,7 @@ pub fn size(s: &mut Source, cap: usize) -> usize {
 /// The cap of the scaled dimension for a tier.
 pub fn cap(thorough: bool) -> usize {
     if thorough {
-        2000
+        1000
     } else {
         400
     }
